@@ -53,6 +53,28 @@ def gen(rng, tier):
         else:
             k = G.span_of(kv, p, n, u); d['k'] = k; d['order'] = rng.randint(0, p)
             out.append(Case('bders', "bders %d %s %d %s %d" % (p, U, k, fr(u), d['order']), d))
+    # interior knots of FULL multiplicity (p + 1) with the parameter exactly on them: every routine must take
+    # the right-hand span there
+    for _ in range(24 if tier == 'quick' else 300):
+        p = rng.randint(1, 5)
+        kv, n = G.knots(rng, p, max_interior=3, clamped=rng.random() < .8, max_mult=p + 1)
+        full = [x for x in set(kv[p + 1:n]) if kv.count(x) == p + 1]
+        if not full:
+            continue
+        u = rng.choice(full)
+        U = show_list(kv)
+        k0 = G.span_of(kv, p, n, u)
+        d = dict(p=p, n=n, kv=kv, u=u, k=k0)
+        r = rng.random()
+        if r < .2:
+            out.append(Case('span-lin', "span lin %d %d %s %s" % (p, n, U, fr(u)), d, tags=('full-multiplicity',)))
+        elif r < .35:
+            out.append(Case('span-bin', "span bin %d %d %s %s" % (p, n, U, fr(u)), d, tags=('full-multiplicity',)))
+        elif r < .55:
+            out.append(Case('basis', "basis %d %s %d %s" % (p, U, k0, fr(u)), d, tags=('full-multiplicity',)))
+        else:
+            d['i'] = rng.randint(k0 - p, k0) if rng.random() < .8 else rng.randint(0, n - 1)
+            out.append(Case('basisone', "basisone %d %s %d %s" % (p, U, d['i'], fr(u)), d, tags=('full-multiplicity',)))
     # A2.5 basis_function_ders_one: active functions, arbitrary functions, order up to the degree and
     # (guard stream) above it
     for _ in range(70 if tier == 'quick' else 1200):
